@@ -32,6 +32,7 @@ type VerifyOpts struct {
 	AllocBound  string // if non-empty, a contract expression (over params) bounding every make()
 	NoFrame     bool
 	SafetyOnly  bool // ignore functional clauses (sweep mode)
+	ParamInvs   map[string]string // parameter type string -> invariant expression over `$p` (assumed at entry, kept as loop invariant)
 }
 
 func (e *Engine) GenVC(fn *ssa.Function, opts VerifyOpts) (res *FuncVC) {
@@ -40,6 +41,7 @@ func (e *Engine) GenVC(fn *ssa.Function, opts VerifyOpts) (res *FuncVC) {
 	vc.closures = map[string]*closureInfo{}
 	vc.callCount = map[string]int{}
 	vc.noFrame = opts.NoFrame
+	vc.paramInvs = opts.ParamInvs
 	res.vc = vc
 	defer func() {
 		if r := recover(); r != nil {
@@ -68,6 +70,9 @@ func (e *Engine) GenVC(fn *ssa.Function, opts VerifyOpts) (res *FuncVC) {
 	}
 	fr := vc.newFrame(fn, 0)
 	fr.top = true
+	if len(opts.ParamInvs) > 0 {
+		fr.contract = synthContract(e, fn, fr, opts.ParamInvs)
+	}
 	res.HasContract = fr.contract != nil
 	res.NumLoops = len(fr.loopOrd)
 	st := &State{reach: "true", heaps: map[string]string{}}
@@ -126,12 +131,28 @@ func (e *Engine) GenVC(fn *ssa.Function, opts VerifyOpts) (res *FuncVC) {
 			_ = m
 		}
 	}
+	if fr.contract != nil {
+		for _, ln := range fr.contract.Uses {
+			fr.assumeLemma(ln, fr.entry)
+		}
+	}
 	if opts.AllocBound != "" {
 		ex, err := parseExprString(rewriteImplies(opts.AllocBound))
 		if err != nil {
 			panic(contractError("bad alloc bound: " + err.Error()))
 		}
-		vc.allocBound = allocBoundTerm(env, ex)
+		func() {
+			defer func() {
+				if r := recover(); r != nil {
+					if _, ok := r.(contractError); ok {
+						vc.note("allocation bound not applicable to " + res.Name + " (it has no parameter the bound expression refers to)")
+						return
+					}
+					panic(r)
+				}
+			}()
+			vc.allocBound = allocBoundTerm(env, ex)
+		}()
 	}
 	st.reach = vc.define("r", "Bool", and(entryFacts...))
 	fr.entry.reach = st.reach
@@ -215,3 +236,273 @@ func (f *FuncVC) Script(obs []*Oblig, timeoutMs int, models bool) string {
 }
 
 var _ = types.Typ
+
+
+// assumeLemma makes the contract of a ghost lemma function available as a fact quantified over its parameters,
+// with the heap fixed to state st (lemmas are proved for an arbitrary heap, so any state may be used).
+func (fr *Frame) assumeLemma(name string, st *State) {
+	vc := fr.vc
+	pkgPath := fr.fn.Pkg.Pkg.Path()
+	key := name
+	if !strings.Contains(name, ".") {
+		key = pkgPath + "." + name
+	}
+	lf := vc.eng.FindFunc(key)
+	ct := vc.eng.Contracts[key]
+	if lf == nil || ct == nil {
+		panic(contractError("uses: unknown lemma " + name))
+	}
+	if lf.Signature.Results().Len() != 0 {
+		panic(contractError("uses: lemma " + name + " must not return values"))
+	}
+	if ct.Trusted {
+		vc.note("trusted lemma (axiom) used: " + key)
+	} else {
+		vc.note("lemma used (proved separately as a ghost function): " + key)
+	}
+	env := &Env{vc: vc, pkg: vc.eng.Pkgs[ct.PkgPath], names: map[string]TV{}, st: st, old: st, inQuant: 1}
+	var vars [][2]string
+	guard := []string{}
+	vc.inBinder++
+	for _, p := range lf.Params {
+		var ts []string
+		for _, l := range leaves(p.Type()) {
+			bv := vc.freshName("q_" + p.Name())
+			vars = append(vars, [2]string{bv, l.Sort})
+			ts = append(ts, bv)
+		}
+		v := build(p.Type(), &ts)
+		env.names[p.Name()] = TV{v, p.Type()}
+		guard = append(guard, vc.wfVal(p.Type(), v))
+	}
+	var req, ens []string
+	for _, c := range ct.Requires {
+		req = append(req, fr.evalClause(env, c))
+	}
+	for _, c := range ct.Ensures {
+		ens = append(ens, fr.evalClause(env, c))
+	}
+	vc.inBinder--
+	body := implies(and(append(guard, req...)...), and(ens...))
+	pats := specAppTerms(and(ens...), vars)
+	q := ""
+	if len(pats) > 0 && len(vars) > 0 {
+		q = forall(vars, "(! "+body+" :pattern ("+strings.Join(pats, " ")+"))")
+	} else if len(vars) > 0 {
+		q = forall(vars, body)
+	} else {
+		q = body
+	}
+	vc.assert(q)
+}
+
+// specAppTerms extracts the uninterpreted spec-function applications in t that mention at least one bound variable
+// and together cover all of them (used as a multi-pattern).
+func specAppTerms(t string, vars [][2]string) []string {
+	var out []string
+	seen := map[string]bool{}
+	for i := 0; i < len(t); i++ {
+		if strings.HasPrefix(t[i:], "(|spec|") {
+			d := 0
+			for j := i; j < len(t); j++ {
+				if t[j] == '(' {
+					d++
+				} else if t[j] == ')' {
+					d--
+					if d == 0 {
+						term := t[i : j+1]
+						mentions := false
+						for _, v := range vars {
+							if strings.Contains(term, v[0]) {
+								mentions = true
+							}
+						}
+						if mentions && !seen[term] {
+							seen[term] = true
+							out = append(out, term)
+						}
+						break
+					}
+				}
+			}
+		}
+	}
+	// every bound variable must occur in the multi-pattern
+	for _, v := range vars {
+		found := false
+		for _, o := range out {
+			if strings.Contains(o, v[0]) {
+				found = true
+			}
+		}
+		if !found {
+			return nil
+		}
+	}
+	return out
+}
+
+
+// synthContract builds the implicit contract of a swept function: type invariants of its parameters are assumed at
+// entry and must be maintained by every loop (checked like written invariants).
+func synthContract(e *Engine, fn *ssa.Function, fr *Frame, invs map[string]string) *Contract {
+	ct := &Contract{Key: fn.String(), Loops: map[int]*LoopSpec{}, Nullable: map[string]bool{}, Dyn: map[string][]string{}}
+	if fn.Pkg != nil {
+		ct.PkgPath = fn.Pkg.Pkg.Path()
+	}
+	if old := fr.contract; old != nil {
+		*ct = *old
+		ct.Loops = map[int]*LoopSpec{}
+		for k, v := range old.Loops {
+			cp := *v
+			ct.Loops[k] = &cp
+		}
+	}
+	for _, p := range fn.Params {
+		tmpl, ok := invs[types.TypeString(types.Unalias(p.Type()), nil)]
+		if !ok || p.Name() == "" || p.Name() == "_" {
+			continue
+		}
+		text := strings.ReplaceAll(tmpl, "$p", p.Name())
+		c, err := parseClause(text, "<sweep type invariant>", 0)
+		if err != nil {
+			panic(contractError(err.Error()))
+		}
+		ct.Requires = append(ct.Requires, c)
+		for _, ord := range fr.loopOrd {
+			ls := ct.Loops[ord]
+			if ls == nil {
+				ls = &LoopSpec{}
+				ct.Loops[ord] = ls
+			}
+			ls.Inv = append(ls.Inv, c)
+		}
+	}
+	return ct
+}
+
+
+// GenRefinementVC checks that the contract of a concrete method refines the contract of an interface method:
+// under the interface precondition the concrete precondition holds, the concrete frame is within the interface frame,
+// and the concrete postcondition implies the interface postcondition. No code is involved (the concrete method is
+// verified against its own contract separately).
+func (e *Engine) GenRefinementVC(ikey string, ict *Contract, m *ssa.Function, ifaceT types.Type) (res *FuncVC) {
+	res = &FuncVC{Fn: m, Name: shortFuncName(m) + "~" + strings.ReplaceAll(ikey, repoModule+"/", "")}
+	vc := NewVC(e, m)
+	vc.closures = map[string]*closureInfo{}
+	vc.callCount = map[string]int{}
+	res.vc = vc
+	defer func() {
+		if r := recover(); r != nil {
+			switch x := r.(type) {
+			case unsupported:
+				res.Unsupported = string(x)
+			case contractError:
+				res.ContractErr = string(x)
+			case error:
+				if os.Getenv("GCV_DEBUG") != "" {
+					panic(r)
+				}
+				res.Unsupported = "engine limitation: " + x.Error()
+			default:
+				panic(r)
+			}
+		}
+		res.Lines = vc.lines
+		for n := range vc.notes {
+			res.Notes = append(res.Notes, n)
+		}
+		sort.Strings(res.Notes)
+	}()
+	cct := e.contractFor(m)
+	if cct == nil {
+		panic(contractError("refinement: " + m.String() + " has no contract"))
+	}
+	fr := vc.newFrame(m, 0)
+	fr.top = true
+	fr.contract = ict
+	st := &State{reach: "true", heaps: map[string]string{}}
+	alloc0 := vc.allocOf(st)
+	var args []Val
+	var argTypes []types.Type
+	for _, p := range m.Params {
+		v := vc.freshVal("p_"+p.Name(), p.Type())
+		fr.vals[p] = v
+		args = append(args, v)
+		argTypes = append(argTypes, p.Type())
+		ts := flatT(p.Type(), v)
+		for i, l := range leaves(p.Type()) {
+			if l.Sort == "Int" && (l.Typ == nil || isRefType(l.Typ)) {
+				vc.assert(lt(ts[i], alloc0))
+			}
+		}
+	}
+	res.params = args
+	recvT := m.Params[0].Type()
+	var entryFacts []string
+	if p, ok := args[0].(Ptr); ok {
+		entryFacts = append(entryFacts, lt("0", p.Base))
+	}
+	fr.entry = st.clone()
+	res.entry = fr.entry
+	self := fr.makeInterface(st, recvT, args[0])
+	env := &Env{vc: vc, pkg: e.Pkgs[ict.PkgPath], names: map[string]TV{}, st: st}
+	env.names["self"] = TV{self, ifaceT}
+	// interface method parameter names
+	var isig *types.Signature
+	if it, ok := under(ifaceT).(*types.Interface); ok {
+		for i := 0; i < it.NumMethods(); i++ {
+			if it.Method(i).Name() == m.Name() {
+				isig = it.Method(i).Type().(*types.Signature)
+			}
+		}
+	}
+	if isig == nil {
+		panic(contractError("refinement: interface has no method " + m.Name()))
+	}
+	for i := 0; i < isig.Params().Len(); i++ {
+		n := isig.Params().At(i).Name()
+		if n == "" {
+			n = fmt.Sprintf("arg%d", i)
+		}
+		env.names[n] = TV{args[i+1], isig.Params().At(i).Type()}
+	}
+	for _, c := range ict.Requires {
+		entryFacts = append(entryFacts, fr.evalClause(env, c))
+	}
+	fr.modLocs = fr.evalModifies(env, ict)
+	st.reach = vc.define("r", "Bool", and(entryFacts...))
+	fr.entry.reach = st.reach
+	pre := st.clone()
+	rv := fr.applyContract(m, cct, args, argTypes, m.Pos(), st)
+	// interface postconditions
+	penv := &Env{vc: vc, pkg: env.pkg, names: map[string]TV{}, st: st, old: pre}
+	for k, v := range env.names {
+		penv.names[k] = v
+	}
+	rs := isig.Results()
+	var results []Val
+	if rs.Len() == 1 {
+		results = []Val{rv}
+	} else if rs.Len() > 1 {
+		results = rv.(*StructV).F
+	}
+	for i := 0; i < rs.Len(); i++ {
+		tv := TV{results[i], rs.At(i).Type()}
+		if n := rs.At(i).Name(); n != "" && n != "_" {
+			penv.names[n] = tv
+		}
+		penv.names[fmt.Sprintf("result%d", i)] = tv
+		if rs.Len() == 1 {
+			penv.names["result"] = tv
+		}
+	}
+	for i, c := range ict.Ensures {
+		goal := fr.evalClause(penv, c)
+		vc.addOblig("refine", fmt.Sprintf("%s#refines:%d", res.Name, i+1), st, goal, m.Pos(), c.Text)
+	}
+	vc.obligs = append(vc.obligs, &Oblig{Name: res.Name + "#cover:exit", Kind: "cover", Reach: st.reach, Goal: "false", IsCover: true, Func: m.String(), Text: "interface precondition and concrete postcondition are consistent"})
+	res.Obligs = vc.obligs
+	res.HasContract = true
+	return res
+}
